@@ -31,8 +31,8 @@
    "pm"  point matching: the matched points coincide, whatever the transform
    "hv"  HVAR: identity / mapped / beyond-the-map indices, default location, region scalar
    "av"  normalisation + avar: knots hit their values, identity map, range, F2Dot14 guard
-   "eq"  SameOutline: reflexive, start-point independent, blind to zero-length atoms,
-         sensitive to a moved point                                                       *)
+   "eq"  SameOutline / SameOutlineI (integer grid): reflexive, start-point independent, blind
+         to zero-length atoms, sensitive to a moved point; GridCoord is the nearest integer                                                      *)
 EXTENDS GlyfSem, TLC, Json
 CONSTANTS NP, C, DSEL
 DSET == IF DSEL = 1 THEN {-1, 2} ELSE {-1, 0, 1}     \* (TLC configuration files cannot write negative numbers)
@@ -306,6 +306,19 @@ EqLaws(xs, on, k) ==
      ELSE IF SameOutline(o, <<moved>>, tol) THEN "eq:moved-point"
      ELSE IF ~SameOutline(ShiftOutline(o, Rat(1, 1024)), o, tol) THEN "eq:within-tolerance"
      ELSE IF SameOutline(ShiftOutline(o, Rat(1, 128)), o, tol) THEN "eq:beyond-tolerance"
+     ELSE IF LET G == 2048
+                 g == GridOutline(o, G)
+             IN \/ GridBad(g) \/ ~SameOutlineI(g, g, 4)
+                \/ ~SameOutlineI(g, GridOutline(<<Rotate(a, kk - 1)>>, G), 4)
+                \/ ~SameOutlineI(g, GridOutline(<<withZero>>, G), 4) \/ ~SameOutlineI(GridOutline(<<withZero>>, G), g, 4)
+                \/ SameOutlineI(g, GridOutline(<<moved>>, G), 4)
+                \/ ~SameOutlineI(GridOutline(ShiftOutline(o, Rat(1, 1024)), G), g, 4)
+                \/ SameOutlineI(GridOutline(ShiftOutline(o, Rat(1, 128)), G), g, 4)
+                \/ SameOutlineI(g, <<>>, 4)
+          THEN "eq:grid"
+     ELSE IF \E n \in {-7, -1, 0, 2, 5} : \E d \in {1, 3, 7, 4096} :
+               LET v == GridCoord(Rat(n, d), 2048) IN v = GBad \/ 2 * IDist(v * d, n * 2048) > d THEN "eq:gridcoord"
+     ELSE IF GridCoord(Rat(2000000, 3), 2048) # GBad \/ GridCoord(RNaN, 2048) # GBad THEN "eq:gridcoord-overflow"
      ELSE IF ShiftCandidates(Rat(5, 2), TRUE) # {Rat(5, 2), RInt(2), RInt(3)} \/ ShiftCandidates(Rat(-7, 4), TRUE) # {Rat(-7, 4), RInt(-2)}
              \/ ShiftCandidates(Rat(5, 2), FALSE) # {Rat(5, 2)} THEN "eq:shift-candidates"
      ELSE IF ~AdvanceOK(RInt(611), Rat(1223, 2), tol) \/ ~AdvanceOK(RInt(612), Rat(1223, 2), tol) \/ AdvanceOK(RInt(613), Rat(1223, 2), tol)
